@@ -27,6 +27,8 @@ def isV4LiteralName (d : Bytes) : Bool :=
 def destOp (toks : List String) : String :=
   match toks with
   | "dec" :: isOpen :: chunks =>
+    -- `~ms` tokens are pauses between chunks: what is decoded depends on the bytes only
+    let chunks := chunks.filter (fun c => !c.startsWith "~")
     match allSome (chunks.map bytesOfHex) with
     | some cs =>
       match decodeDest (mkReader cs (isOpen == "1")) with
@@ -35,6 +37,7 @@ def destOp (toks : List String) : String :=
       | (.block, _) => "block"
     | none => "bad-op"
   | "udpreq" :: isOpen :: chunks =>
+    let chunks := chunks.filter (fun c => !c.startsWith "~")
     match allSome (chunks.map bytesOfHex) with
     | some cs =>
       match decodeUdpRequest (mkReader cs (isOpen == "1")) with
